@@ -4,6 +4,7 @@ import (
 	"encoding/binary"
 	"encoding/json"
 	"fmt"
+	ccpb "github.com/google/go-tdx-guest/proto/checkconfig"
 	mrand "math/rand"
 	"strings"
 
@@ -686,6 +687,72 @@ func c08(x *mon.Ctx) {
 	}
 	x.Require("one-options-many-quotes", 40, 40, 400)
 
+	// ---- options that came out of PolicyToOptions and were then edited by the caller to a wrong shape (in place, or on a copy of
+	//      the struct): validation judges the options it is given, wherever they came from — a wrongly sized minimum or a wrong
+	//      number of RTMR entries is refused exactly as in hand-built options
+	{
+		r := x.Rand("converted-then-edited")
+		qp := policyQuote(r)
+		rq, _ := ref.ParseQuote(qp.Bytes())
+		m := mon.BuildMessage(rq)
+		pol := &ccpb.Policy{TdQuoteBodyPolicy: &ccpb.TDQuoteBodyPolicy{MinimumTeeTcbSvn: make([]byte, 16), Rtmrs: [][]byte{rq.Rtmrs[0], rq.Rtmrs[1], rq.Rtmrs[2], rq.Rtmrs[3]}, MrTd: rq.MrTd}}
+		n := 0
+		for _, ed := range []struct {
+			name string
+			edit func(o *validate.Options)
+		}{
+			{"min-tee-tcb-svn-1-byte", func(o *validate.Options) { o.TdQuoteBodyOptions.MinimumTeeTcbSvn = []byte{0} }},
+			{"min-tee-tcb-svn-15-bytes", func(o *validate.Options) { o.TdQuoteBodyOptions.MinimumTeeTcbSvn = make([]byte, 15) }},
+			{"min-tee-tcb-svn-17-bytes", func(o *validate.Options) { o.TdQuoteBodyOptions.MinimumTeeTcbSvn = make([]byte, 17) }},
+			{"min-tee-tcb-svn-32-bytes", func(o *validate.Options) { o.TdQuoteBodyOptions.MinimumTeeTcbSvn = make([]byte, 32) }},
+			{"rtmrs-1-entry", func(o *validate.Options) { o.TdQuoteBodyOptions.Rtmrs = o.TdQuoteBodyOptions.Rtmrs[:1] }},
+			{"rtmrs-3-entries", func(o *validate.Options) { o.TdQuoteBodyOptions.Rtmrs = o.TdQuoteBodyOptions.Rtmrs[:3] }},
+			{"rtmrs-5-entries", func(o *validate.Options) {
+				o.TdQuoteBodyOptions.Rtmrs = append(append([][]byte{}, o.TdQuoteBodyOptions.Rtmrs...), rq.Rtmrs[0])
+			}},
+			{"rtmrs-8-entries", func(o *validate.Options) {
+				o.TdQuoteBodyOptions.Rtmrs = append(append([][]byte{}, o.TdQuoteBodyOptions.Rtmrs...), o.TdQuoteBodyOptions.Rtmrs...)
+			}},
+			{"mr-td-47-bytes", func(o *validate.Options) { o.TdQuoteBodyOptions.MrTd = o.TdQuoteBodyOptions.MrTd[:47] }},
+			{"rtmr-entry-47-bytes", func(o *validate.Options) {
+				o.TdQuoteBodyOptions.Rtmrs = [][]byte{rq.Rtmrs[0][:47], rq.Rtmrs[1], rq.Rtmrs[2], rq.Rtmrs[3]}
+			}},
+		} {
+			for _, how := range []string{"in-place", "on-a-copy"} {
+				o, err := validate.PolicyToOptions(pol)
+				prob := ""
+				if err != nil || o == nil {
+					x.Broken("converted-then-edited: the policy does not convert: " + fmt.Sprint(err))
+					break
+				}
+				if e0 := validate.TdxQuote(m, o); e0 != nil {
+					x.Broken("converted-then-edited: the converted options refuse the quote they describe: " + e0.Error())
+					break
+				}
+				target := o
+				if how == "on-a-copy" {
+					cp := *o
+					target = &cp
+				}
+				ed.edit(target)
+				var e error
+				pv, st := mon.Guard(func() { e = validate.TdxQuote(m, target) })
+				switch {
+				case pv != "":
+					prob = "validation panics: " + pv + "\n" + st
+				case e == nil:
+					prob = "validation succeeded under options with a wrongly shaped expectation (" + ed.name + "): hand-built options of the same content are refused"
+				}
+				param := ed.name + "/" + how
+				if prob != "" {
+					x.Violation("converted-options-edited-to-a-wrong-shape", param, prob, "none", param)
+				}
+				x.Note("converted-options-edited-to-a-wrong-shape", param, e == nil, pv != "", prob == "")
+				n++
+			}
+		}
+		x.Require("converted-options-edited-to-a-wrong-shape", 0, n, n)
+	}
 	// ---- the caller edits its options value between calls (a measurement withdrawn from the allow-list, an expectation
 	//      changed in place): the next validation is judged by what the value holds NOW, whatever it held a call ago
 	{
